@@ -194,6 +194,12 @@ class CircularConvolve(LinearOperator):
             s=self.input_shape[-self.ndims :],
         )
         H_adj_x = snp.sum(H_adj_x, axis=self.batch_axes)  # adjoint of the broadcast
+        # singleton input axes that were broadcast against h are summed as well
+        bcast_axes = tuple(
+            i for i, s in enumerate(self.input_shape) if s == 1 and H_adj_x.shape[i] != 1
+        )
+        if bcast_axes:
+            H_adj_x = snp.sum(H_adj_x, axis=bcast_axes, keepdims=True)
         if self.real:
             H_adj_x = H_adj_x.real
         return H_adj_x
